@@ -319,7 +319,7 @@ def r4_presence_usage(ctx):
             env['elem.is_composite()'] = False
         funcs = {'self.parent.is_composite': lambda pc=pcomp: pc}
         try:
-            res = traces(g, env, lambda c: 'report' if _is_report(c) else None, funcs=funcs)
+            res = traces(g, env, lambda c: 'report' if _is_report(c) else None, funcs=funcs, returns=True)
         except NotClosedTest as e:
             raise AnalysisError('element_if.is_valid: the handling of an absent value cannot be decided (usage %s): %s' % (u, e))
         n_runs += 1
